@@ -725,11 +725,11 @@ def _wide_products(ctx, run):
                     nm = l["name"] if l["k"] == "ref" else ("field:%s" % l["member"] if l["k"] == "mem" else nm)
                 if rhs is not None and nm is not None:
                     for n2 in ex.walk(f, rhs):
-                        target.setdefault(n2, nm)
+                        target.setdefault(n2, set()).add(nm)    # (sub-expressions may be shared after normalisation)
         for i, e in enumerate(f.exprs):
             if e["k"] != "bin" or e["op"] != "*" or "it" not in e:
                 continue
-            if target.get(i) not in feeds:
+            if not (target.get(i, set()) & feeds):
                 continue            # does not feed the CRI search limit
             ops = [atoms.Operand(f, c) for c in e["c"]]
             if not any(rate in o.locals for o in ops):
